@@ -76,6 +76,8 @@ def install(root, graph, default_product=False):
             os.makedirs(d, exist_ok=True)
         else:
             d = common.mkprod(s, n, v, table_text(p["deps"]))
+        if p.get("missing"):
+            os.unlink(os.path.join(d, "ups", n + ".table"))     # declared, but the table file is gone
         if p.get("payload", True):
             with open(os.path.join(d, "payload"), "w") as f:
                 f.write("%s %s\n" % (n, v))
@@ -121,6 +123,8 @@ def err_class(ex):
         return "Unsortable"
     if name == "ProductNotFound":
         return "NotFound"
+    if name == "TableFileNotFound":
+        return "TableError"
     if name == "EupsException":
         return "Refused" if "is required by product" in str(ex) else "Other(EupsException)"
     return "Other(%s)" % name
